@@ -68,7 +68,7 @@ def judge_plugin(st0, ops, props=None, classify=True):
             before_n = pm.send_plugin_message.call_count
             before_state = impl.state_digest(unit.state)
             if k == "event":
-                unit.on_event(suites.event_value(op[1]), None)
+                unit.on_event(suites.event_value(op[1]), suites.event_payload(op))
                 if op[1] == "PRINT_STARTED":
                     active = True
                     phys, virt = Printer(g90e), Printer(g90e)
@@ -181,6 +181,20 @@ def judge_plugin(st0, ops, props=None, classify=True):
                         viol("C15", "step %d: excluding at print end but the hook returned %r" % (idx, r))
                     if unit.state.excluding:
                         viol("C15", "step %d: still excluding after the after-print hook" % idx)
+                    if isinstance(r, tuple) and len(r) == 2 and isinstance(r[0], list):
+                        # "exactly once": one re-synchronisation of E, one X/Y travel, at most one Z
+                        # move, the exit script as configured — nothing of earlier episodes
+                        pre = [c for c in r[0] if isinstance(c, str)]
+                        n_e = len([c for c in pre if c.startswith("G92 E")])
+                        n_xy = len([c for c in pre if c.startswith("G0 ") and " X" in c])
+                        n_z = len([c for c in pre if c.startswith("G0 ") and " Z" in c and " X" not in c])
+                        exit_lines = list((cur_settings.get("cfg") or {}).get("exit") or [])
+                        n_exit = [pre.count(t) for t in set(exit_lines)]
+                        if n_e != 1 or n_xy != 1 or n_z > 1 or any(k != exit_lines.count(t)
+                                                                   for k, t in zip(n_exit, set(exit_lines))):
+                            viol("C15", "step %d: the after-print prefix %r is not one episode's clean-up "
+                                        "(G92 E: %d, G0 X/Y: %d, G0 Z: %d, exit script %r)"
+                                 % (idx, pre, n_e, n_xy, n_z, exit_lines))
                     if isinstance(r, tuple) and len(r) == 2 and isinstance(r[0], list) and tracked_ok[0] \
                             and not unknown_axis and virt.abs and virt.unit == 1.0:
                         try:
@@ -232,7 +246,7 @@ def c10_fresh(st0, history, program):
             op = tuple(op)
             try:
                 if op[0] == "event":
-                    used.on_event(suites.event_value(op[1]), None)
+                    used.on_event(suites.event_value(op[1]), suites.event_payload(op))
                 elif op[0] == "save":
                     suites.apply_settings(used, op[1]); cur = op[1]
                     used.on_event(suites.event_value("SETTINGS_UPDATED"), None)
